@@ -285,11 +285,12 @@ func (s *sim) genFamily(rng *simcore.RNG, f string) simcore.Op {
 		return []string{"prop", "prop", "last", "rand", "nil", "bighdr", "badhash", "half"}[rng.Weighted([]int{6, 6, 3, 6, 5, 3, 1, 1})]
 	}
 	sig := func() string {
-		w := []int{8, 1, 1, 0, 0}
+		// the attacker never holds the node's own validator key (that would be > 2/3 of the power)
+		w := []int{8, 1, 1, 0}
 		if s.cfg.Bool("byz") {
-			w[3], w[4] = 9, 1
+			w[3] = 9
 		}
-		return []string{"junk", "none", "long", "val2", "self"}[rng.Weighted(w)]
+		return []string{"junk", "none", "long", "val2"}[rng.Weighted(w)]
 	}
 	vtype := func() int { return []int{1, 2, 1, 2, 1, 2, 1, 2, 1, 2, 1, 2, 0, 32, 99}[rng.Intn(15)] }
 	ba := func(prefix string) {
@@ -603,8 +604,11 @@ func signBytesOf(f func() []byte) (out []byte) {
 }
 
 func (s *sim) sign(who string, signBytes []byte, r *simcore.RNG) ([]byte, string) {
-	if signBytes == nil && (who == "val2" || who == "self") {
+	if signBytes == nil && who == "val2" {
 		who = "junk"
+	}
+	if who == "self" {
+		who = "junk" // not part of the threat model (older traces may carry it)
 	}
 	switch who {
 	case "none":
